@@ -438,9 +438,11 @@ Section SessInsert.
     exists F' d ev,
       s_tr ss' = trace_evs (s_tr ss) ev /\
       rep H (resolve_of H PathScheme S) (dirty_at ss') (delp_of (s_tr ss')) true [] (s_root ss') F' /\
-      forall fu', (length (keybytes_to_hex key) < fu')%nat ->
+      (forall fu', (length (keybytes_to_hex key) < fu')%nat ->
         exists ev', insert (resolve_of H PathScheme S) fu' F [] (keybytes_to_hex key) (NValue (x :: v)) =
-                    TOk (d, F', ev') /\ nores ev' = nores ev.
+                    TOk (d, F', ev') /\ nores ev' = nores ev) /\
+      insert (resolve_of H PathScheme S) (ops_fuel (keybytes_to_hex key)) (s_root ss) []
+             (keybytes_to_hex key) (NValue (x :: v)) = TOk (d, s_root ss', ev).
   Proof.
     intros [GO Rp] BK E. unfold sess_update in E.
     set (k := keybytes_to_hex key) in *.
@@ -472,7 +474,7 @@ Section SessInsert.
     destruct (insert_rep H H_len (resolve_of H PathScheme S) (dirty_at ss) (dirty_at ss')
                 (delp_of (s_tr ss)) (delp_of (s_tr ss')) DM DPM
                 _ _ _ _ _ _ _ _ _ _ IE Rp Wp DK DI) as (F' & X1 & _ & X3).
-    exists F', d, ev. split; [reflexivity|]. split; [exact X1|exact X3].
+    exists F', d, ev. split; [reflexivity|]. split; [exact X1|]. split; [exact X3|first [exact IE|reflexivity]].
   Qed.
 End SessInsert.
 
